@@ -150,7 +150,10 @@ def check_exec(ck: Check):
         fail_at = None
         if ck.rng.random() < 0.3:
             fail_at = ck.rng.randrange(len(stmts))
-            stmts[fail_at] = ck.rng.choice(["select * from c16_missing", "insert into c16_t values (1, 2, 3)", "select nocol from c16_t"])
+            # failing at run time (unknown objects) or because the statement is not SQL at all (its turn comes after the earlier ones ran)
+            stmts[fail_at] = ck.rng.choice(["select * from c16_missing", "insert into c16_t values (1, 2, 3)", "select nocol from c16_t",
+                                            "delete from c16_t wher k = 1", "update c16_t set v = 'x' were k = 1", "delete from c16_t where k = 0 3",
+                                            "delete from c16_t where k in (0, 1", "select 1 +", "select k from c16_t where k = 1 group k, v"])
         text = decorate(ck.rng, stmts)
         dictc = ck.rng.random() < 0.3
         fs1, c1 = new_instance()
